@@ -87,3 +87,52 @@ def readAllLimited (limit : Option Nat) (src : Src) : Bytes × Option RErr × Sr
   | none => (src.flat, if src.tail.isEOF then none else some src.tail, { src with flat := [] })
 
 end ConnectModel
+
+namespace ConnectModel
+
+/-! ## draining what is left of a body (`drainUpTo`, fix F43) -/
+
+inductive DrainResult where
+  | atEnd                 -- the body ended within the budget
+  | more                  -- more than the budget was left
+  | failed (e : RErr)     -- a read failed
+  deriving DecidableEq, Repr
+
+/-- `drainUpTo(reader, limit)`: `io.Copy(io.Discard, &io.LimitedReader{R: reader, N: limit})`,
+    and - when the budget was used up exactly - one more read, which settles whether anything is
+    left. (`io.Copy` and the probe compare with `io.EOF` itself: an error that merely wraps it is
+    an error.) -/
+def drain (limit : Nat) (s : Script) : DrainResult :=
+  let (_, e, s') := readExact limit s
+  match e with
+  | some .eof => .atEnd
+  | some err => .failed err
+  | none =>
+    let (pb, pe, _) := read1 s' 1
+    if pb ≠ [] then .more
+    else match pe with
+      | some .eof => .atEnd
+      | some err => .failed err
+      | none => .more        -- not reached on a well-formed script: a read returns data or an error
+
+/-- the same at the specification level: only the number of bytes left and how the stream ends -/
+def drainSpec (limit : Nat) (src : Src) : DrainResult :=
+  if src.flat.length ≤ limit then (if src.tail = .eof then .atEnd else .failed src.tail) else .more
+
+/-- the pinned `discard`: `io.Copy` over the `LimitedReader` alone. What matters to the gRPC
+    client is whether a read of the body reported `io.EOF` - that is when net/http fills in the
+    trailers. -/
+def copyLimitedSawEOF : Nat → Script → Nat → Bool
+  | 0, _, _ => false
+  | fuel + 1, s, budget =>
+    if budget = 0 then false
+    else
+      let (b, e, s') := read1 s budget
+      match e with
+      | some .eof => true
+      | some _ => false
+      | none => copyLimitedSawEOF fuel s' (budget - b.length)
+
+def drainSawEOFPinned (limit : Nat) (s : Script) : Bool := copyLimitedSawEOF (limit + 1) s limit
+
+end ConnectModel
